@@ -13,6 +13,9 @@ Definition fget (f : face) (k : nat) : nat :=
 Definition tri (F : Type) := (vec3 F * vec3 F * vec3 F)%type.
 Definition tget {F} (t : tri F) (k : nat) : vec3 F :=
   match k with 0%nat => fst (fst t) | 1%nat => snd (fst t) | _ => snd t end.
+(* per-corner (snapped) distances of one face *)
+Definition dget {F} (d : F * F * F) (k : nat) : F :=
+  match k with 0%nat => fst (fst d) | 1%nat => snd (fst d) | _ => snd d end.
 Definition sgn3 := (Z * Z * Z)%type.
 Definition sget (s : sgn3) (k : nat) : Z :=
   match k with 0%nat => fst (fst s) | 1%nat => snd (fst s) | _ => snd s end.
@@ -69,68 +72,77 @@ Section Slicing.
 
   (* dots = einsum("i,ij->j", plane_normal, (vertices - plane_origin).T) *)
   Definition plane_dot (n o v : vec3 F) : F := vdot O n (vsub O v o).
-  (* signs = 0; signs[dots < -tol] = 1; signs[dots > tol] = -1  (the later assignment wins) *)
+  (* dots = np.where(np.abs(dots) <= tol.merge, 0.0, dots): a vertex closer to the plane than the merge tolerance
+     counts as lying on it (fixes/C01-snap-on-plane-distances.diff) *)
+  Definition snap (tol d : F) : F := if nleb O (nabs O d) tol then n0 O else d.
+  Definition snapped_dot (tol : F) (n o v : vec3 F) : F := snap tol (plane_dot n o v).
+  (* signs = 0; signs[dots < -tol] = 1; signs[dots > tol] = -1  (the later assignment wins); dots are the snapped ones *)
   Definition vsign (tol d : F) : Z :=
     if nltb O tol d then (-1)%Z else if nltb O d (nneg O tol) then 1%Z else 0%Z.
-  Definition tri_signs (tol : F) (n o : vec3 F) (t : tri F) : sgn3 :=
-    (vsign tol (plane_dot n o (tget t 0)), vsign tol (plane_dot n o (tget t 1)), vsign tol (plane_dot n o (tget t 2))).
+  Definition signs3 (tol : F) (ds : F * F * F) : sgn3 :=
+    (vsign tol (dget ds 0), vsign tol (dget ds 1), vsign tol (dget ds 2)).
+  (* dots[faces] for one face *)
+  Definition tri_dists (tol : F) (n o : vec3 F) (t : tri F) : F * F * F :=
+    (snapped_dot tol n o (tget t 0), snapped_dot tol n o (tget t 1), snapped_dot tol n o (tget t 2)).
+  Definition tri_signs (tol : F) (n o : vec3 F) (t : tri F) : sgn3 := signs3 tol (tri_dists tol n o t).
 
-  (* intersection of the edge p -> q with the plane:
-       d = q - p; num = (origin - p).n; denom = d.n; denom[denom == 0] = 1e-12; p' = (num/denom) * d + p *)
-  Definition int_point (eps : F) (n o p q : vec3 F) : vec3 F :=
+  (* intersection of the edge p -> q with the plane, from the snapped distances da, db of its ends:
+       d = q - p; num = -da; denom = db - da; denom[denom == 0] = 1e-12; p' = (num/denom) * d + p *)
+  Definition int_point (eps da db : F) (p q : vec3 F) : vec3 F :=
     let d := vsub O q p in
-    let num := vdot O (vsub O o p) n in
-    let denom := vdot O d n in
+    let num := nneg O da in
+    let denom := nsub O db da in
     let denom' := if neqb O denom (n0 O) then eps else denom in
     vadd O (vscale O (ndiv O num denom') d) p.
-  (* int_points[j] lies on the edge j -> j+1 (d = np.roll(o, -1, axis=1) - o) *)
-  Definition int_points (eps : F) (n o : vec3 F) (t : tri F) (j : nat) : vec3 F :=
-    int_point eps n o (tget t j) (tget t (S j mod 3)).
+  (* int_points[j] lies on the edge j -> j+1 (np.roll(..., -1, axis=1) - ...) *)
+  Definition int_points (eps : F) (ds : F * F * F) (t : tri F) (j : nat) : vec3 F :=
+    int_point eps (dget ds j) (dget ds (S j mod 3)) (tget t j) (tget t (S j mod 3)).
 
   (* quad branch: k = corner behind the plane; kept corners k+1, k+2; new vertices int_points[k+2], int_points[k];
      quads_to_tris: (0,1,2), (0,2,3) *)
-  Definition quad_new (eps : F) (n o : vec3 F) (t : tri F) (k : nat) : list (vec3 F) :=
-    [int_points eps n o t ((k + 2) mod 3); int_points eps n o t ((k + 0) mod 3)].
-  Definition quad_tris (eps : F) (n o : vec3 F) (t : tri F) (k : nat) : list (tri F) :=
+  Definition quad_new (eps : F) (ds : F * F * F) (t : tri F) (k : nat) : list (vec3 F) :=
+    [int_points eps ds t ((k + 2) mod 3); int_points eps ds t ((k + 0) mod 3)].
+  Definition quad_tris (eps : F) (ds : F * F * F) (t : tri F) (k : nat) : list (tri F) :=
     let b := tget t ((k + 1) mod 3) in
     let c := tget t ((k + 2) mod 3) in
-    let p := int_points eps n o t ((k + 2) mod 3) in
-    let q := int_points eps n o t ((k + 0) mod 3) in
+    let p := int_points eps ds t ((k + 2) mod 3) in
+    let q := int_points eps ds t ((k + 0) mod 3) in
     [(b, c, p); (b, p, q)].
   (* triangle branch: k = the corner in front; new vertices int_points[k], int_points[k+2] *)
-  Definition tri_new (eps : F) (n o : vec3 F) (t : tri F) (k : nat) : list (vec3 F) :=
-    [int_points eps n o t ((k + 0) mod 3); int_points eps n o t ((k + 2) mod 3)].
-  Definition cut_tris (eps : F) (n o : vec3 F) (t : tri F) (k : nat) : list (tri F) :=
-    [(tget t k, int_points eps n o t ((k + 0) mod 3), int_points eps n o t ((k + 2) mod 3))].
+  Definition tri_new (eps : F) (ds : F * F * F) (t : tri F) (k : nat) : list (vec3 F) :=
+    [int_points eps ds t ((k + 0) mod 3); int_points eps ds t ((k + 2) mod 3)].
+  Definition cut_tris (eps : F) (ds : F * F * F) (t : tri F) (k : nat) : list (tri F) :=
+    [(tget t k, int_points eps ds t ((k + 0) mod 3), int_points eps ds t ((k + 2) mod 3))].
 
   (* the per-face kernel: what one input face contributes, as coordinate triangles *)
-  Definition slice_face_signs (eps : F) (n o : vec3 F) (s : sgn3) (m : bool) (t : tri F) : list (tri F) :=
+  Definition slice_face_signs (eps : F) (ds : F * F * F) (s : sgn3) (m : bool) (t : tri F) : list (tri F) :=
     match face_case s m with
     | Keep => [t]
     | Drop => []
-    | CQuad k => quad_tris eps n o t k
-    | CTri k => cut_tris eps n o t k
+    | CQuad k => quad_tris eps ds t k
+    | CTri k => cut_tris eps ds t k
     end.
   Definition slice_face (tol eps : F) (n o : vec3 F) (m : bool) (t : tri F) : list (tri F) :=
-    slice_face_signs eps n o (tri_signs tol n o t) m t.
+    slice_face_signs eps (tri_dists tol n o t) (tri_signs tol n o t) m t.
 
   (* ---- the mesh pipeline, as vectorised ---------------------------------------------------------------- *)
-  (* one row of faces / vertices[faces] / signs[faces] / mask *)
-  Record fdata := FD { fd_f : face; fd_t : tri F; fd_s : sgn3; fd_m : bool }.
+  (* one row of faces / vertices[faces] / dots[faces] / signs[faces] / mask *)
+  Record fdata := FD { fd_f : face; fd_t : tri F; fd_d : F * F * F; fd_s : sgn3; fd_m : bool }.
 
   Definition lookup3 {A} (l : list A) (f : face) : option (A * A * A) :=
     match nth_error l (fget f 0), nth_error l (fget f 1), nth_error l (fget f 2) with
     | Some a, Some b, Some c => Some (a, b, c)
     | _, _, _ => None
     end.
-  Definition resolve1 (vs : list (vec3 F)) (vsigns : list Z) (fm : face * bool) : option fdata :=
-    match lookup3 vs (fst fm), lookup3 vsigns (fst fm) with
-    | Some t, Some s => Some (FD (fst fm) t s (snd fm))
-    | _, _ => None
+  Definition resolve1 (vs : list (vec3 F)) (dots : list F) (vsigns : list Z) (fm : face * bool) : option fdata :=
+    match lookup3 vs (fst fm), lookup3 dots (fst fm), lookup3 vsigns (fst fm) with
+    | Some t, Some d, Some s => Some (FD (fst fm) t d s (snd fm))
+    | _, _, _ => None
     end.
-  (* vertices[faces], signs[faces]: None = an index is out of range (IndexError) *)
-  Definition resolve (vs : list (vec3 F)) (vsigns : list Z) (fs : list face) (mask : list bool) : option (list fdata) :=
-    all_some (map (resolve1 vs vsigns) (zip fs mask)).
+  (* vertices[faces], dots[faces], signs[faces]: None = an index is out of range (IndexError) *)
+  Definition resolve (vs : list (vec3 F)) (dots : list F) (vsigns : list Z) (fs : list face) (mask : list bool)
+    : option (list fdata) :=
+    all_some (map (resolve1 vs dots vsigns) (zip fs mask)).
 
   Definition inside_mask (fds : list fdata) : list bool := map (fun d => inside (fd_s d) (fd_m d)) fds.
   Definition quad_mask (fds : list fdata) : list bool := map (fun d => is_quad (fd_s d) (fd_m d)) fds.
@@ -147,8 +159,8 @@ Section Slicing.
     | [] => []
     | d :: r => quad_faces1 base d ++ quad_faces (S (S base)) r
     end.
-  Definition quad_verts (eps : F) (n o : vec3 F) (qs : list fdata) : list (vec3 F) :=
-    flat_map (fun d => quad_new eps n o (fd_t d) (col_of 1 (fd_s d))) qs.
+  Definition quad_verts (eps : F) (qs : list fdata) : list (vec3 F) :=
+    flat_map (fun d => quad_new eps (fd_d d) (fd_t d) (col_of 1 (fd_s d))) qs.
 
   Definition tri_faces1 (base : nat) (d : fdata) : list face :=
     [mkface (fget (fd_f d) (col_of (-1) (fd_s d))) base (S base)].
@@ -157,15 +169,15 @@ Section Slicing.
     | [] => []
     | d :: r => tri_faces1 base d ++ tri_faces (S (S base)) r
     end.
-  Definition tri_verts (eps : F) (n o : vec3 F) (ts : list fdata) : list (vec3 F) :=
-    flat_map (fun d => tri_new eps n o (fd_t d) (col_of (-1) (fd_s d))) ts.
+  Definition tri_verts (eps : F) (ts : list fdata) : list (vec3 F) :=
+    flat_map (fun d => tri_new eps (fd_d d) (fd_t d) (col_of (-1) (fd_s d))) ts.
 
   (* unique, inverse = unique_bincount(new_faces.ravel()); (new_vertices[unique], inverse.reshape((-1, 3))) *)
   Definition renumber (nvs : list (vec3 F)) (fs : list face) : list (vec3 F) * list face :=
     let vals := flat_faces fs in
     (take nvs (ub_unique vals), map (map_face (ub_rank vals)) fs).
 
-  Definition slice_fds (eps : F) (n o : vec3 F) (vs : list (vec3 F)) (fds : list fdata) : mesh_out F :=
+  Definition slice_fds (eps : F) (vs : list (vec3 F)) (fds : list fdata) : mesh_out F :=
     let kept_idx := flatnonzero (inside_mask fds) in
     let kept := map fd_f (take fds kept_idx) in
     let quad_idx := flatnonzero (quad_mask fds) in
@@ -178,9 +190,9 @@ Section Slicing.
     else
       let nv := length vs in
       let qf := quad_faces nv quads in
-      let qv := quad_verts eps n o quads in
+      let qv := quad_verts eps quads in
       let tf := tri_faces (nv + length qv) tris in
-      let tv := tri_verts eps n o tris in
+      let tv := tri_verts eps tris in
       let r := renumber (vs ++ qv ++ tv) (kept ++ qf ++ tf) in
       MkOut (fst r) (snd r) (kept_idx ++ repeat2 quad_idx ++ tri_idx).
 
@@ -201,10 +213,11 @@ Section Slicing.
     if (length vs =? 0)%nat then Ok (MkOut vs fs (seq 0 (length fs)))
     else
       rbind (mask_of (length fs) face_index) (fun mask =>
-        let vsigns := map (fun v => vsign tol (plane_dot n o v)) vs in
-        match resolve vs vsigns fs mask with
+        let dots := map (snapped_dot tol n o) vs in
+        let vsigns := map (vsign tol) dots in
+        match resolve vs dots vsigns fs mask with
         | None => Raise IndexError
-        | Some fds => Ok (slice_fds eps n o vs fds)
+        | Some fds => Ok (slice_fds eps vs fds)
         end).
 
   (* the public wrapper: faces_to_slice.nonzero()[0]; the dtype assertions hold on every path of the model
